@@ -19,8 +19,11 @@ def build(rng):
         c = rng.randint(1, mx)
         name = "p%d" % b
         cores[name] = c
-        sp.proc(t3.Proc(name, kind="cattok", ins=[("a", [(s, "out")])], outs=[("o", "{i:a}.%s" % name)], cores=c,
-                        sleep="sleep 0.0%d" % rng.randint(2, 6), gofunc=(rng.random() < 0.15)))
+        gof = rng.random() < 0.15
+        # a third of the shell processes run a multi-line script whose first line is a comment
+        cls = t3.CommentProc if (not gof and rng.random() < 0.35) else t3.Proc
+        sp.proc(cls(name, kind="cattok", ins=[("a", [(s, "out")])], outs=[("o", "{i:a}.%s" % name)], cores=c,
+                    sleep="sleep 0.0%d" % rng.randint(2, 6), gofunc=gof))
     return sp, cores, mx
 
 
